@@ -25,6 +25,8 @@ func runC04(c *Ctx) {
 	c.Rule("C04.O2", "E4,E1", "every call of the disarm function holds Conn.mux and is dominated by the queue-empty edge", 2)
 	c.Rule("C04.O3", "E4", "a store to isWAdded sits in the block of the matching epoll_ctl call, behind the !closed test (addDialer: pre-publication exception)", 3)
 	c.Rule("C04.O16", "E4,E1", "the converse of O3: the poller-level read-only registration (resetRead) is issued only next to isWAdded = false, or by the one-shot re-arm that decides by the queue (queue-empty edge under Conn.mux); nothing else takes write interest away and leaves the flag set", 2)
+	c.Rule("C04.O17", "E4", "a disarm issued on the queue-empty edge is conditioned by nothing else: no further branch between the queue test and Conn.resetRead (flush, dial completion)", 2)
+	c04DisarmByQueueAlone(c)
 	c.Rule("C04.O4", "E9", "setReadWrite always registers EPOLLOUT|EPOLLIN|error flags (+EPOLLET in ET mode); setRead registers EPOLLIN|error flags and EPOLLOUT exactly in the ET-without-ONESHOT ADD", 6)
 	c.Rule("C04.O5", "E4,E5", "flush is called only from the poller loop, on the write-event edge", 1)
 	c.Rule("C04.O6", "E4,E1", "ResetPollerEvent re-arms read+write exactly on the queue-non-empty edge and reads closed/writeList under Conn.mux", 1)
